@@ -179,7 +179,7 @@ def write_ndjson(path, rows):
             fh.write(json.dumps(r, ensure_ascii=False) + "\n")
 
 
-def run_harness(cases, wd, name="cases", jobs=None, timeout=20, mem=4096):
+def run_harness(cases, wd, name="cases", jobs=None, timeout=20, mem=4096, confirm=True):
     """returns observations in case order (dict id -> obs)"""
     cpath = os.path.join(wd, name + ".ndjson")
     opath = os.path.join(wd, name + ".obs.ndjson")
@@ -196,6 +196,15 @@ def run_harness(cases, wd, name="cases", jobs=None, timeout=20, mem=4096):
     obs = load_ndjson(opath)
     if len(obs) != len(cases):
         raise ToolError("harness returned %d observations for %d cases" % (len(obs), len(cases)))
+    # a worker death or a wall-clock limit is only believed when it reproduces in a second, unhurried run
+    # (on a loaded machine the first one can be an artefact of the load, which must never become an alarm)
+    if confirm:
+        again = [i for i, o in enumerate(obs) if any(o.get(k) in ("timeout", "abort") for k in ("status", "compile", "check", "lsp"))]
+        if again and len(again) <= max(50, len(cases) // 10):
+            sub = [cases[i] for i in again]
+            obs2, _ = run_harness(sub, wd, name=name + "_confirm", jobs=2, timeout=timeout * 3, mem=mem, confirm=False)
+            for i, o2 in zip(again, obs2):
+                obs[i] = o2
     return obs, time.time() - t0
 
 
